@@ -415,7 +415,7 @@ class LinearOperator(Operator):
             eval_fn=self.gram,
             adj_fn=self.gram,
             input_dtype=self.input_dtype,
-            output_dtype=self.output_dtype,
+            output_dtype=self.input_dtype,
         )
 
     def gram(
